@@ -5,8 +5,13 @@ use crate::util::*;
 use crate::words::{EDGEWORDS, MAXWORDS, WORDS};
 use ssdeep::internal_hashes::{PartialFNVHash, RollingHash};
 
-pub const PROCFS_CANDIDATES: &[&str] =
-    &["/proc/version", "/proc/filesystems", "/proc/cpuinfo"];
+/// pseudo files whose metadata size disagrees with what reading delivers: procfs reports 0 and
+/// delivers content; sysfs attributes report a page (4096) and deliver a few bytes or nothing
+pub const PROCFS_CANDIDATES: &[&str] = &[
+    "/proc/version", "/proc/filesystems", "/proc/cpuinfo",
+    "/sys/kernel/address_bits", "/sys/devices/system/cpu/possible", "/sys/kernel/fscaps",
+    "/sys/kernel/profiling", "/sys/module/kernel/parameters/panic", "/sys/class/net/lo/mtu", "/sys/power/state",
+];
 
 type Emit<'a> = &'a mut dyn FnMut(&str);
 
@@ -150,6 +155,40 @@ fn gen_prim(thorough: bool, r: &mut Rng, emit: Emit) {
             emit(&line);
         }
     }
+    // bytes that are neutral for part of the state (low six bits zero: the 6-bit FNV state only sees
+    // `ch & 63`; zero bytes: the rolling sums), arranged in aligned 8- and 16-byte segments mixed with
+    // arbitrary ones, so that any block-wise shortcut over "neutral" data meets a half-neutral block
+    // (round-5 seeded change C19: a 16-byte skip testing only the first 8 bytes)
+    for i in 0..(if thorough { 3000 } else { 500 }) {
+        let nseg = r.range(1, 8) as usize;
+        let mut bs: Vec<u8> = Vec::new();
+        if i % 3 == 0 { let l = r.below(16) as usize; bs.extend(r.bytes(l)); }    // misalign
+        for _ in 0..nseg {
+            let seglen = *r.pick(&[4usize, 8, 8, 8, 16]);
+            match r.below(4) {
+                0 => for _ in 0..seglen { bs.push(*r.pick(&[0u8, 0x40, 0x80, 0xc0])); },
+                1 => for _ in 0..seglen { bs.push(0); },
+                2 => for _ in 0..seglen { bs.push(*r.pick(&[0u8, 0x40, 0x80, 0xc0, 0x01, 0x3f, 0x7f])); },
+                _ => bs.extend(r.bytes(seglen)),
+            }
+        }
+        match i % 4 {
+            0 => emit(&format!("prim fnv {}", hexenc(&bs))),
+            1 => emit(&format!("prim roll {}", hexenc(&bs))),
+            _ => {
+                // the same bytes as a chunk history, cut at segment-ish places
+                let which = if i % 4 == 2 { "fnvh" } else { "rollh" };
+                let mut line = format!("prim {}", which);
+                let mut pos = 0usize;
+                while pos < bs.len() {
+                    let n = (*r.pick(&[1usize, 7, 8, 16, 16, 24, 32, 33])).min(bs.len() - pos);
+                    line.push_str(&format!(" {}:{}", r.pick(&FORMS), hexenc(&bs[pos..pos + n])));
+                    pos += n;
+                }
+                emit(&line);
+            }
+        }
+    }
     for w in WORDS.iter() {
         emit(&format!("prim roll {}", hexenc(&w.1)));
     }
@@ -275,6 +314,11 @@ fn rand_block_size_field(r: &mut Rng) -> Vec<u8> {
         4 => format!("{}", 3u64 << r.range(31, 40)).into_bytes(),
         // values a wrapping / modular validity test could confuse with a valid size
         10 => format!("{}", 1u64 << r.below(33)).into_bytes(),
+        // a valid size plus a multiple of 2^32 / 2^64 (wrapping accumulators of either width)
+        13 => format!("{}", (3u128 << r.below(31)) + ((r.range(1, 5) as u128) << 32)).into_bytes(),
+        14 => format!("{}", (3u128 << r.below(31)) + ((r.range(1, 5) as u128) << 64)).into_bytes(),
+        15 => format!("{}", *r.pick(&[7516192768u128, 5905580032, 5100273664, 11811160064, 18446744073709551619, 18446744073709551615, 18446744073709551616,
+                                       36893488147419103238, 340282366920938463463374607431768211455])).into_bytes(),
         11 => format!("{}", *r.pick(&[2147483648u64, 2147483649, 2147483647, 4294967295, 4294967294, 4294967293, 1431655765, 2863311531, 1431655766, 715827883])).into_bytes(),
         12 => format!("{}", ((3u64 << r.below(31)) as i64 + *r.pick(&[-1i64, 1, -3, 3]) * (1i64 << r.below(31))).rem_euclid(1 << 32)).into_bytes(),
         5 => b"4294967296".to_vec(),
@@ -352,6 +396,18 @@ fn gen_parse(thorough: bool, r: &mut Rng, emit: Emit) {
         b"3:@:".to_vec(), b"3::@".to_vec(), b"x".to_vec(), b"3:\xff:".to_vec(),
     ];
     for t in &fixed { for ty in TYPES { emit(&format!("parse {} {}", ty, hexenc(t))); } }
+    // very long runs of one symbol (counters narrower than usize: 255 / 256 / 257, 65535 / 65536 / 65537),
+    // alone, after a prefix, in either block hash
+    for l in [250usize, 254, 255, 256, 257, 258, 259, 260, 300, 511, 512, 513, 1000, 65535, 65536, 65537, 65540] {
+        if l > 2000 && !thorough && l != 65537 { continue; }
+        for (pre, field) in [(0usize, 1u8), (5, 1), (0, 2), (29, 2), (61, 1)] {
+            let mut t = b"6:".to_vec();
+            let prefix: Vec<u8> = b64(&(0..pre).map(|i| ((i * 3 + 1) % 64) as u8).collect::<Vec<u8>>());
+            if field == 1 { t.extend(&prefix); t.extend(vec![b'/'; l]); t.extend_from_slice(b":xyz"); }
+            else { t.extend_from_slice(b"abc:"); t.extend(&prefix); t.extend(vec![b'/'; l]); }
+            for ty in TYPES { emit(&format!("parse {} {}", ty, hexenc(&t))); }
+        }
+    }
     // run of one symbol of every length around both capacities, each position of the field
     let lens: Vec<usize> = if thorough { (0..=140).collect() } else { vec![0, 1, 3, 4, 31, 32, 33, 34, 35, 36, 63, 64, 65, 66, 67, 68, 69, 100, 130] };
     for &l in &lens {
@@ -445,7 +501,14 @@ fn gen_fmt(thorough: bool, r: &mut Rng, emit: Emit) {
             let ty = *r.pick(&PLAIN);
             let (k, b1, b2) = rand_obj(r, ty);
             let mut t = text_of(k, &b1, &b2);
-            match r.below(4) { 0 => t.extend_from_slice(b",name"), 1 => t.push(b','), _ => {} }
+            match r.below(10) {
+                0 | 1 => t.extend_from_slice(b",name"),
+                2 => t.push(b','),
+                // bytes after block hash 2 that are not a comma: an accepted text would not print back
+                3 => t.extend_from_slice(*r.pick(&[&b" "[..], b"\n", b"\r\n", b"\t", b"\xc2\xa0", b"\0", b"\0,x", b" ,x", b"\n,x", b":", b"="])),
+                4 => { t.push(b','); t.extend_from_slice(*r.pick(&[&b" "[..], b"\n", b"\0", b"\xff", b"\"a b\"\n"])); }
+                _ => {}
+            }
             t
         } else { rand_hash_text(r) };
         emit(&format!("fmt2 {} {}", r.pick(&PLAIN), hexenc(&t)));
@@ -467,6 +530,25 @@ fn run_layout(pos: usize, run: usize, total: usize) -> Vec<u8> {
 }
 
 fn gen_runs(thorough: bool, r: &mut Rng, fam: &str, emit: Emit) {
+    // every short string over a 2- and a 3-symbol alphabet: all head / tail / interleaving shapes of
+    // runs (x y y y y, x y x x x, ...), as block hash 1, as block hash 2, and as a prefix / suffix of a
+    // longer random block hash (rounds 3 and 5: shortcuts that mis-seed the run state from the first
+    // few characters)
+    {
+        let mut small = all_strings(2, if thorough { 10 } else { 8 });
+        small.extend(all_strings(3, if thorough { 7 } else { 5 }).into_iter().filter(|s| s.contains(&2)));
+        for (i, s0) in small.iter().enumerate() {
+            let s: Vec<u8> = s0.iter().map(|&c| [17u8, 0, 63][c as usize]).collect();
+            let (c, cap2) = if i % 2 == 0 { ("S", 32usize) } else { ("L", 64usize) };
+            let k = (i % 31) as u8;
+            match i % 4 {
+                0 => emit(&format!("{} {} {} {} {}", fam, c, k, hexenc(&s), hexenc(&rand_bh(r, cap2)))),
+                1 => emit(&format!("{} {} {} {} {}", fam, c, k, hexenc(&rand_bh(r, 64)), hexenc(&s))),
+                2 => { let mut v = s.clone(); v.extend(rand_bh(r, 30)); v.truncate(64); emit(&format!("{} {} {} {} {}", fam, c, k, hexenc(&v), hexenc(&s))); }
+                _ => { let mut v = rand_bh(r, 20); v.extend(&s); v.truncate(cap2); emit(&format!("{} {} {} {} {}", fam, c, k, hexenc(&s), hexenc(&v))); }
+            }
+        }
+    }
     for (c, cap2) in [("S", 32usize), ("L", 64usize)] {
         // every run length at every position (thorough), a sample otherwise
         for run in 1..=64usize {
@@ -559,6 +641,47 @@ fn gen_dual2(thorough: bool, r: &mut Rng, emit: Emit) {
         };
         emit(&format!("dual2 {} {} {} {} {} {} {}", c, k1, hexenc(&a1), hexenc(&a2), k2, hexenc(&b1), hexenc(&b2)));
     }
+    // same normalised form, raw forms differing in exactly one run — the j-th of many (up to the 16 / 8
+    // RLE entries a block can hold), by 1..3 (same entry count), by 4 (one entry more) or by a lot (several
+    // entries); near-full block hashes with many short runs; equality, ordering and hashing must see the
+    // difference wherever it sits in the RLE block (round-5 seeded changes C07 m1 / m3, C16 m2)
+    for i in 0..(if thorough { 8000 } else { 1000 }) {
+        let (c, cap2) = if r.chance(1, 2) { ("S", 32usize) } else { ("L", 64usize) };
+        let k = r.below(31) as u8;
+        let build = |r: &mut Rng, cap: usize, dense: bool| -> Vec<(u8, usize)> {
+            let mut segs: Vec<(u8, usize)> = Vec::new();
+            let mut total = 0usize;
+            let mut prev = 64u8;
+            loop {
+                let mut sym = r.below(64) as u8; if sym == prev { sym = (sym + 1) % 64; }
+                let len = if dense { *r.pick(&[4usize, 4, 5, 6, 7, 1, 2]) } else { match r.below(6) { 0 => 1, 1 => 2, 2 => 3, 3 => r.range(4, 7) as usize, 4 => r.range(8, 12) as usize, _ => r.range(1, 40) as usize } };
+                if total + len > cap { break; }
+                segs.push((sym, len)); total += len; prev = sym;
+                if !dense && r.chance(1, 12) { break; }
+            }
+            segs
+        };
+        let flat = |segs: &[(u8, usize)]| -> Vec<u8> { segs.iter().flat_map(|&(c, n)| std::iter::repeat(c).take(n)).collect() };
+        let vary = |r: &mut Rng, segs: &[(u8, usize)], cap: usize, late: bool| -> Vec<(u8, usize)> {
+            let mut out = segs.to_vec();
+            let idx: Vec<usize> = (0..out.len()).filter(|&j| out[j].1 >= 3).collect();
+            if idx.is_empty() { return out; }
+            let j = if late { idx[idx.len() - 1 - (r.below(2) as usize).min(idx.len() - 1)] } else { *r.pick(&idx) };
+            let total: usize = out.iter().map(|s| s.1).sum();
+            let room = cap - total;
+            let old = out[j].1;
+            let cands: Vec<usize> = [3usize, 4, 5, 6, 7, 8, 9, old + 1, old + 2, old + 3, old + 4, old + 5, old.saturating_sub(1), old.saturating_sub(4), old + room]
+                .iter().copied().filter(|&n| n >= 3 && n != old && n <= old + room).collect();
+            if !cands.is_empty() { out[j].1 = *r.pick(&cands); }
+            out
+        };
+        let dense = i % 3 != 0;
+        let s1 = build(r, 64, dense);
+        let s2 = build(r, cap2, dense);
+        let late = i % 2 == 0;
+        let (t1, t2) = match r.below(3) { 0 => (vary(r, &s1, 64, late), s2.clone()), 1 => (s1.clone(), vary(r, &s2, cap2, late)), _ => (vary(r, &s1, 64, late), vary(r, &s2, cap2, late)) };
+        emit(&format!("dual2 {} {} {} {} {} {} {}", c, k, hexenc(&flat(&s1)), hexenc(&flat(&s2)), k, hexenc(&flat(&t1)), hexenc(&flat(&t2))));
+    }
 }
 
 // ---------------------------------------------------------------------------------------------
@@ -583,6 +706,20 @@ fn gen_ord(thorough: bool, r: &mut Rng, emit: Emit) {
             _ => { let o = rand_obj(r, ty); (o.0, o.1, o.2) }
         };
         emit(&format!("ord {} {} {} {} {} {} {}", ty, k1, hexenc(&a1), hexenc(&a2), k2, hexenc(&b1), hexenc(&b2)));
+    }
+    // tiny objects: empty / one-two symbol block hashes (symbol 0 = 'A' is also the padding byte), every
+    // pair of block sizes among a few — equality must still see the block size and the lengths
+    let tiny: Vec<Vec<u8>> = vec![vec![], vec![0], vec![0, 0], vec![0, 0, 0], vec![1], vec![1, 0], vec![0, 1], vec![63]];
+    for ty in PLAIN {
+        for (i, x1) in tiny.iter().enumerate() {
+            for (j, y1) in tiny.iter().enumerate() {
+                if !thorough && (i * 3 + j) % 4 != 0 && !(i < 3 && j < 3) { continue; }
+                for (k1, k2) in [(0u8, 0u8), (0, 1), (1, 0), (5, 30), (30, 30)] {
+                    emit(&format!("ord {} {} {} {} {} {} {}", ty, k1, hexenc(x1), hexenc(&tiny[(i + j) % tiny.len()]), k2, hexenc(y1), hexenc(&tiny[(i + j) % tiny.len()])));
+                    emit(&format!("ord {} {} {} {} {} {} {}", ty, k1, hexenc(&tiny[(i * j) % tiny.len()]), hexenc(x1), k2, hexenc(&tiny[(i * j) % tiny.len()]), hexenc(y1)));
+                }
+            }
+        }
     }
 }
 
@@ -671,6 +808,39 @@ fn gen_posarr(thorough: bool, r: &mut Rng, emit: Emit) {
         let probe = rand_bh(r, 64);
         emit(&format!("pah {} {}", items.join(";"), hexenc(&probe)));
     }
+    // related histories: each string is a prefix / extension / one-symbol edit / full-length version
+    // of the previous one; the probe shares a 7-gram with the first, the previous or the last string
+    for _ in 0..(if thorough { 6000 } else { 800 }) {
+        let steps = r.range(2, 6);
+        let mut items: Vec<String> = Vec::new();
+        let mut strs: Vec<Vec<u8>> = Vec::new();
+        let mut prev = match r.below(3) { 0 => related_bh(r, &[], 64), _ => rand_norm_bh(r, 64) };
+        for _ in 0..steps {
+            if r.chance(1, 10) { items.push("c".into()); }
+            items.push(hexenc(&prev));
+            strs.push(prev.clone());
+            prev = related_bh(r, &prev, 64);
+        }
+        let probe = match r.below(4) { 0 => strs[0].clone(), 1 => strs[strs.len() - 1].clone(), 2 => strs[strs.len().saturating_sub(2)].clone(), _ => mutate_bh(r, &strs[strs.len() - 1], 64) };
+        emit(&format!("pah {} {}", items.join(";"), hexenc(&probe)));
+    }
+}
+
+/// the next string of a reuse history, related to the previous one: proper prefix, extension,
+/// empty, full length (64), same length with one symbol changed, or unrelated (rounds 3-5 of the
+/// seeded changes: stale masks survive exactly when old and new contents are related this way)
+fn related_bh(r: &mut Rng, prev: &[u8], cap: usize) -> Vec<u8> {
+    let v: Vec<u8> = match r.below(9) {
+        0 => { let l = r.range(0, prev.len() as u64) as usize; prev[..l].to_vec() }                      // (proper) prefix
+        1 => { let mut v = prev.to_vec(); for _ in 0..r.range(1, 12) { v.push(r.below(64) as u8); } v }    // extension
+        2 => vec![],
+        3 => { let mut v = rand_norm_bh(r, cap); while v.len() < cap { v.push(((v.len() * 7 + 3) % 64) as u8); } v } // full
+        4 => { let mut v = prev.to_vec(); if !v.is_empty() { let i = r.below(v.len() as u64) as usize; v[i] = r.below(64) as u8; } v }
+        5 => { let l = r.below(prev.len() as u64 + 1) as usize; prev[l..].to_vec() }                        // suffix
+        6 => prev.to_vec(),
+        _ => rand_norm_bh(r, cap),
+    };
+    fixn(v, cap)
 }
 
 fn hash_arg(k: u8, b1: &[u8], b2: &[u8]) -> String { format!("{}:{}:{}", k, hexenc(b1), hexenc(b2)) }
@@ -694,6 +864,31 @@ fn gen_target(thorough: bool, r: &mut Rng, emit: Emit) {
             1 => { let f = hs[0].clone(); ((last.0), f.1, f.2) }
             2 => (last.0.saturating_add(1).min(30), { let mut v = collapse(&mutate_bh(r, &last.2, 64)); v.truncate(64); v }, rand_norm_bh(r, cap2)),
             _ => (last.0, { let mut v = collapse(&mutate_bh(r, &last.1, 64)); v.truncate(64); v }, { let mut v = collapse(&mutate_bh(r, &last.2, cap2)); v.truncate(cap2); v }),
+        };
+        let seq: Vec<String> = hs.iter().map(|h| hash_arg(h.0, &h.1, &h.2)).collect();
+        emit(&format!("tgt {} {} {}", c, seq.join(";"), hash_arg(probe.0, &probe.1, &probe.2)));
+    }
+    // related histories (see related_bh): both block hashes evolve by prefix / extension / emptying /
+    // filling to capacity; the probe is the first, previous or last hash or a light edit of one of them
+    for _ in 0..(if thorough { 8000 } else { 1000 }) {
+        let (c, cap2) = if r.chance(1, 2) { ("S", 32usize) } else { ("L", 64usize) };
+        let steps = r.range(2, 5) as usize;
+        let mut hs: Vec<(u8, Vec<u8>, Vec<u8>)> = Vec::new();
+        let mut k = r.below(31) as u8;
+        let mut b1 = match r.below(3) { 0 => vec![], 1 => related_bh(r, &[], 64), _ => rand_norm_bh(r, 64) };
+        let mut b2 = match r.below(3) { 0 => vec![], 1 => related_bh(r, &[], cap2), _ => rand_norm_bh(r, cap2) };
+        for _ in 0..steps {
+            hs.push((k, b1.clone(), b2.clone()));
+            if r.chance(1, 3) { k = r.below(31) as u8; }
+            match r.below(4) { 0 => { b1 = related_bh(r, &b1, 64); } 1 => { b2 = related_bh(r, &b2, cap2); } _ => { b1 = related_bh(r, &b1, 64); b2 = related_bh(r, &b2, cap2); } }
+        }
+        let last = hs[hs.len() - 1].clone();
+        let pick = match r.below(3) { 0 => hs[0].clone(), 1 => hs[hs.len().saturating_sub(2)].clone(), _ => last.clone() };
+        let probe = match r.below(4) {
+            0 => (last.0, pick.1.clone(), pick.2.clone()),
+            1 => (last.0.saturating_add(1).min(30), fixn(pick.2.clone(), 64), rand_norm_bh(r, cap2)),
+            2 => (last.0, fixn(mutate_bh(r, &pick.1, 64), 64), fixn(mutate_bh(r, &pick.2, cap2), cap2)),
+            _ => (last.0.saturating_sub(1), rand_norm_bh(r, 64), fixn(pick.1.clone(), cap2)),
         };
         let seq: Vec<String> = hs.iter().map(|h| hash_arg(h.0, &h.1, &h.2)).collect();
         emit(&format!("tgt {} {} {}", c, seq.join(";"), hash_arg(probe.0, &probe.1, &probe.2)));
@@ -767,6 +962,18 @@ fn gen_cmp(thorough: bool, r: &mut Rng, emit: Emit) {
             _ => (short(r), edit(r, &a1, 32)),
         };
         emit(&format!("cmp {} {} {} {} {} {}", k1, hexenc(&a1), hexenc(&a2), k2, hexenc(&b1), hexenc(&b2)));
+    }
+    // hashes that differ only by trailing symbols 0 ('A', the same byte as the padding of the arrays),
+    // including empty block hashes: "equal" shortcuts must compare lengths too (round-5 seeded change C10)
+    for _ in 0..(if thorough { 4000 } else { 400 }) {
+        let k = r.below(31) as u8;
+        let base = |r: &mut Rng, cap: usize| -> Vec<u8> { match r.below(4) { 0 => vec![], 1 => fixn((0..r.range(1, 6)).map(|_| r.below(64) as u8).collect(), cap), _ => { let mut v = rand_norm_bh(r, cap - 3); while v.last() == Some(&0) { v.pop(); } v } } };
+        let zeros = |r: &mut Rng, v: &[u8], cap: usize| -> Vec<u8> { let mut v = v.to_vec(); for _ in 0..r.range(1, 3) { v.push(0); } fixn(v, cap) };
+        let (a1, a2) = (base(r, 64), base(r, 32));
+        let (b1, b2) = match r.below(3) { 0 => (zeros(r, &a1, 64), a2.clone()), 1 => (a1.clone(), zeros(r, &a2, 32)), _ => (zeros(r, &a1, 64), zeros(r, &a2, 32)) };
+        let k2 = match r.below(4) { 0 => k.saturating_add(1).min(30), 1 => k.saturating_sub(1), _ => k };
+        emit(&format!("cmp {} {} {} {} {} {}", k, hexenc(&a1), hexenc(&a2), k2, hexenc(&b1), hexenc(&b2)));
+        emit(&format!("cmp {} {} {} {} {} {}", k2, hexenc(&b1), hexenc(&b2), k, hexenc(&a1), hexenc(&a2)));
     }
     // string front end on raw (not normalised) texts and on malformed ones
     let m = if thorough { 6000 } else { 500 };
@@ -869,6 +1076,8 @@ fn chunked(r: &mut Rng, data: &[u8], toks: &mut Vec<String>, allow_fin: bool) {
         pos += n;
         if allow_fin && r.chance(1, fin_den) { toks.push("f".into()); }
         if allow_fin && r.chance(1, 2 * fin_den) { toks.push("c".into()); }
+        if allow_fin && r.chance(1, 3 * fin_den) { toks.push("p".into()); }
+        if allow_fin && r.chance(1, 4 * fin_den) { toks.push("q".into()); }
     }
 }
 
@@ -941,6 +1150,30 @@ fn gen_gen(thorough: bool, r: &mut Rng, emit: Emit) {
         }
     }
     emit(&format!("gen s:{} f s:{} s:{} z:{} s:{} f", max + 1, max, max - 1, max, max + 1));
+    // the top block size with a declared size: totals in (96 GiB, 192 GiB], 32..70 pieces at level 30
+    // (the last-piece hash must be active whether or not the size was declared: round-5 seeded change C13)
+    for i in 0..(if thorough { 60 } else { 16 }) {
+        let total = match i % 4 { 0 => max, 1 => max / 2 + 1 + r.below(1000), 2 => max - r.below(1000), _ => r.range(max / 2 + 1, max) };
+        let w = word(30, r);
+        let reps = match i % 3 { 0 => 32, 1 => 33, _ => r.range(31, 70) } as usize;
+        let mut suffix: Vec<u8> = Vec::new();
+        for _ in 0..reps { suffix.extend_from_slice(&w); }
+        if i % 5 == 0 { suffix.push(1); }
+        let mut toks = vec![format!("z:{}", total - suffix.len() as u64)];
+        if i % 2 == 0 { toks.push(format!("s:{}", total)); }
+        chunked(r, &suffix, &mut toks, false);
+        if i % 2 == 1 && r.chance(1, 2) { toks.push(format!("s:{}", total)); }
+        toks.push("f".into());
+        emit(&format!("gen {}", toks.join(" ")));
+    }
+    // reaching the limit exactly / passing it with the last call, through every update form
+    for form in ["u", "i", "b", "a", "A", "n", "j", "K"] {
+        let w = hexenc(&word(30, r));
+        emit(&format!("gen z:{} {}:{} f", max - 7, form, w));
+        emit(&format!("gen z:{} {}:{} f", max - 6, form, w));
+        emit(&format!("gen z:{} {}:{} f {}:01 f", max - 14, form, w, form));
+        emit(&format!("gen z:{} u:{} {}:{} f", max - 14, w, form, w));
+    }
     // the small-input warning border (4097), fed for real, through the hook and as a declared size
     for n in [0u64, 1, 4095, 4096, 4097, 4098, 8192] {
         let data = rand_payload(r, n as usize);
@@ -1127,6 +1360,29 @@ fn gen_gen(thorough: bool, r: &mut Rng, emit: Emit) {
         chunked(r, &d2, &mut toks, fin2);
         if r.chance(1, 4) { toks.push(format!("s:{}", len2)); }
         toks.push("f".into());
+        emit(&format!("gen {}", toks.join(" ")));
+    }
+    // 4c. clone_from into used generators: park a copy early (few pieces), run the generator far ahead
+    //     (block hashes filled, levels eliminated), restore from the parked copy and continue; also park
+    //     late / restore into a fresh or reset generator (round-5 seeded change C03 m2: a hand-written
+    //     clone_from copying only the used prefix of each block hash)
+    for i in 0..(if thorough { 800 } else { 150 }) {
+        let mut toks: Vec<String> = vec![];
+        let l1 = match r.below(3) { 0 => 0, 1 => r.range(1, 200), _ => r.range(200, 3000) } as usize;
+        let l2 = r.range(500, 20000) as usize;
+        let l3 = r.range(0, 3000) as usize;
+        let (d1, d2, d3) = (rand_payload(r, l1), rand_payload(r, l2), rand_payload(r, l3));
+        if i % 5 == 0 { toks.push(format!("s:{}", l1 + l3)); }
+        chunked(r, &d1, &mut toks, false);
+        toks.push("p".into());
+        if i % 7 == 0 { toks.push("f".into()); }
+        chunked(r, &d2, &mut toks, false);
+        if i % 4 == 0 { toks.push("f".into()); }
+        match i % 6 { 0 => { toks.push("r".into()); toks.push("q".into()); } 1 => { toks.push("p".into()); toks.push("r".into()); toks.push("q".into()); } _ => toks.push("q".into()) }
+        toks.push("f".into());
+        chunked(r, &d3, &mut toks, false);
+        toks.push("f".into());
+        if i % 3 == 0 { toks.push("q".into()); toks.push("f".into()); }
         emit(&format!("gen {}", toks.join(" ")));
     }
     // hash_buf
